@@ -67,6 +67,13 @@ RUpct == { <<P("x", "1")>>, <<P("x", "2")>>, <<P("x", "3")>>, <<P("x", "5")>>, <
 AllPct == [p \in 1..101 |-> Pct(p - 1)]
 CfgPct == {Cfg("stats1", <<>>, FX, AllPct, 0, <<>>)}
 
+\* ---- the DSL statistics functions on the collected values of x
+RUdsl == RUpct \cup { <<P("x", "")>>, <<P("y", "2")>>, <<P("x", "3")>> }
+D1 == Accs(<<"count", "sum", "sum2", "mean", "null_count", "distinct_count", "mode", "antimode", "minlen", "maxlen", "median">>)
+        \o <<Pct(10), Pct(25), Pct(75), Pct(90), Acc("sort_collection"), Acc("percentiles")>>
+D2 == [p \in 1..21 |-> Pct(5 * (p - 1))]
+CfgDsl == {Cfg("dsl-stats", <<>>, FX, a, 0, <<>>) : a \in {D1, D2}}
+
 \* ---- merge-fields; the regular expression of the -r form, ^(x|y)$, names exactly the fields x and y
 RUmerge == { <<P("x", "3"), P("y", "5"), P("z", "1")>>, <<P("x", ""), P("y", "2")>>, <<P("x", "-1"), P("y", "-1")>>,
              <<P("x", "abc"), P("y", "4")>>, <<P("y", "7")>>, <<P("x", ""), P("y", "")>>, <<P("z", "1")>>,
@@ -93,6 +100,11 @@ S6 == Accs(<<"counter", "rsum", "shift">>)
 CfgStep ==
   {Cfg("step", g, FX, a, 0, <<>>) : g \in {<<>>, G1}, a \in {S1, S2, S3, S4, S5}}
   \cup {Cfg("step", g, FXY, S6, 0, <<>>) : g \in {<<>>, G1}}
+\* stats1 -w n (n = c.n) on the integer data
+A6 == Accs(<<"mode", "median", "mean">>)
+CfgWin ==
+  {Cfg("stats1", g, FX, a, n, <<>>) : g \in {<<>>, G1}, a \in {A1, A6}, n \in {1, 2, 3}}
+  \cup {Cfg("stats1", G1, FXY, A1, 2, <<>>)}
 CfgTop ==
   {Cfg("top", g, FX, <<>>, n, o) : g \in {<<>>, G1}, n \in {1, 2, 3}, o \in {<<>>, <<"--min">>}}
   \cup {Cfg("top", g, FX, <<>>, n, o) : g \in {<<>>, G1}, n \in {1, 2}, o \in {<<"-a">>, <<"-a", "--min">>}}
@@ -121,10 +133,10 @@ CfgFill ==
   \cup {Cfg("fill-down", <<>>, <<>>, <<>>, 0, <<"--all">>)}
   \cup {Cfg("fill-empty", <<>>, <<>>, <<>>, 0, o) : o \in {<<>>, <<"-v", "X">>, <<"-v", "0">>, <<"-S", "-v", "0">>}}
 
-Configs == CfgCnt \cup CfgStat \cup CfgPct \cup CfgMerge \cup CfgMergeC \cup CfgStep \cup CfgTop \cup CfgFrac \cup CfgHist \cup CfgFill
+Configs == CfgCnt \cup CfgStat \cup CfgPct \cup CfgDsl \cup CfgMerge \cup CfgMergeC \cup CfgStep \cup CfgWin \cup CfgTop \cup CfgFrac \cup CfgHist \cup CfgFill
 Cases ==
-  Family(CfgCnt, RUcnt, ExLen, MaxLen) \cup Family(CfgStat, RUstat, ExLen, MaxLen + 1) \cup Family(CfgPct, RUpct, ExLen, 6)
+  Family(CfgCnt, RUcnt, ExLen, MaxLen) \cup Family(CfgStat, RUstat, ExLen, MaxLen + 1) \cup Family(CfgPct, RUpct, ExLen, 6) \cup Family(CfgDsl, RUdsl, ExLen, 6)
   \cup Family(CfgMerge, RUmerge, ExLen, ExLen + 1) \cup Family(CfgMergeC, RUmergec, ExLen, ExLen + 1)
-  \cup Family(CfgStep, RUint, ExLen, MaxLen + 1) \cup Family(CfgTop, RUint, ExLen, MaxLen + 1)
+  \cup Family(CfgStep, RUint, ExLen, MaxLen + 1) \cup Family(CfgWin, RUint, ExLen, MaxLen + 1) \cup Family(CfgTop, RUint, ExLen, MaxLen + 1)
   \cup Family(CfgFrac, RUfrac, ExLen, MaxLen) \cup Family(CfgHist, RUhist, ExLen, MaxLen) \cup Family(CfgFill, RUfill, ExLen, MaxLen)
 =============================================================================
